@@ -57,12 +57,14 @@ def scen(w, which="C04", K=4, firmware=0, kinds="r", roles=None):
             text = ("G10" if role.startswith("FRET") else "G11") + (" S1" if role.endswith("1") else "")
             file_retracted = role.startswith("FRET")
             fw_words[text[:3]] = rs274.read(text).words
-        elif role == "PRINT":
+        elif role in ("PRINT", "PRINTDOT"):
             if file_retracted:
                 pl.skip(w, "printing move while the file is retracted")
             x, y, e = w.real("c%d_X" % pipe.k), w.real("c%d_Y" % pipe.k), w.real("c%d_E" % pipe.k)
-            text = "G1 X%s Y%s E%s" % (w.key(x), w.key(y), w.key(e))
+            # PRINTDOT: the E word is spelled with a leading decimal point (".5"), legal in RS274/Marlin
+            text = "G1 X%s Y%s E%s" % (w.key(x), w.key(y), w.key(e, "." if role == "PRINTDOT" else ""))
             w.assume(e * V.u > V.e)
+            role = "PRINT"
         elif role == "TRAVEL":
             x, y = w.real("c%d_X" % pipe.k), w.real("c%d_Y" % pipe.k)
             text = "G1 X%s Y%s" % (w.key(x), w.key(y))
